@@ -10,20 +10,30 @@
 (*   masked  xmasked_value<T, bool>                mref   xmasked_value<T&, bool&> *)
 (* (T = the counting integer operand type of the harness), or               *)
 (*   dplain  double    dopt  xoptional<double, bool>                        *)
-(*   dmasked xmasked_value<double, bool>     (real IEEE operands: small     *)
-(*                                            integers and NaN)             *)
-(* abstractly a pair [has, val] (plain operands always "have").  Every      *)
-(* lifted call is one action; its C++ arguments are the action parameters.  *)
+(*   dmasked xmasked_value<double, bool>     (real IEEE operands: integers, *)
+(*                        NaN, infinities, fractions, huge and tiny values) *)
+(* or, the two families nested,                                              *)
+(*   mo      xmasked_value<xoptional<T, bool>, bool>   a masked optional     *)
+(*   po      xoptional<T, bool> standing where a call of the mo family       *)
+(*           takes its plain scalar                                          *)
+(* abstractly a pair [has, val] (plain operands always "have"); the value of *)
+(* a mo / po register is NAv when its inner optional is missing.  Reference  *)
+(* kinds close over cells of the caller; two registers may close over the    *)
+(* same cell (va, fa name the value cell and the flag cell of a register).   *)
+(* Every lifted call is one action; its C++ arguments are the action         *)
+(* parameters.                                                               *)
 (*                                                                          *)
 (* The last parameter o of every action is the OBSERVATION of the call:     *)
-(* [kind, has, val, d] = what it returned and d = how many operations of    *)
-(* the underlying value type it evaluated.  An action is enabled exactly    *)
-(* when o is an answer the property allows (Legal); where the property is   *)
-(* silent (the value behind a missing result, how often a present operand   *)
-(* is evaluated, whether == looks at a missing value) every answer is legal *)
-(* and the next state is built from the observed one.  The model checker    *)
-(* supplies the canonical legal observation (Canon), trace validation the   *)
-(* logged one.  Written from the property statement, not from xtl's code.   *)
+(* [kind, has, val, d, u] = what it returned, d = how many operations of    *)
+(* the underlying value type it evaluated, u = (double operands) what the   *)
+(* same operation gave on the underlying doubles.  An action is enabled     *)
+(* exactly when o is an answer the property allows (Legal); where the       *)
+(* property is silent (the value behind a missing result, how often a       *)
+(* present operand is evaluated, whether == looks at a missing value) every *)
+(* answer is legal and the next state is built from the observed one.  The  *)
+(* model checker supplies the canonical legal observation (Canon), trace    *)
+(* validation the logged one.  Written from the property statement, not     *)
+(* from xtl's code.                                                          *)
 (*                                                                          *)
 (* The value type's algebra (Apply1/2/3) is the one of harness/lifted/      *)
 (* probe.hpp: integer semantics for + - * / % - ~ ! < <= > >= == !=, an     *)
@@ -36,25 +46,30 @@ CONSTANTS NReg,      \* number of registers
           MCKinds,   \* register kinds the model checker starts from
           Classes,   \* action classes enabled in the model checker's next-state relation
           MCFuns,    \* operation names the model checker uses (a subset of AllFuns)
+          MCHows,    \* constructions the model checker's Load uses (a subset of LoadHows)
           Canonical, \* TRUE: operands sit in registers 1,2,3 in call order, unused registers are plain 0,
                      \*       results are not stored (the single-call enumeration of S->C)
+          AliasInit, \* TRUE: the initial states also contain register files in which register 2 closes over
+                     \*       the cells of register 1; only initial states are expanded
           EmitOn     \* TRUE: every transition is written out as JSON (see Emit)
 
 VARIABLES r,      \* r[i] = [kind, has, val]
+          va, fa, \* va[i], fa[i]: the value cell / flag cell register i closes over (reference kinds)
           evals,  \* number of underlying operations evaluated so far
           last,   \* ghost: [op, a, res] of the call just performed
-          pre     \* ghost: r before that call
+          pre     \* ghost: [r, va, fa] before that call
 
-vars == <<r, evals, last, pre>>
-absvars == <<r>>
+vars == <<r, va, fa, evals, last, pre>>
+absvars == <<r, va, fa>>
 
 Regs       == DOMAIN r      \* 1..NReg in the model checker; the trace of an execution fixes its own number
 OptKinds   == {"opt", "optref", "optcr", "optvr", "dopt"}
-MskKinds   == {"masked", "mref", "dmasked"}
-PlainKinds == {"plain", "int", "dplain"}
+MskKinds   == {"masked", "mref", "dmasked", "mo"}
+PlainKinds == {"plain", "int", "dplain", "po"}
 DKinds     == {"dplain", "dopt", "dmasked"}                  \* the value type is double
+MixKinds   == {"mo", "po"}                                   \* the value type is xoptional<T>
 Kinds      == OptKinds \cup MskKinds \cup PlainKinds
-Writable   == {"opt", "optref", "optvr", "masked", "mref", "dopt", "dmasked"}   \* optcr closes over const referents
+Writable   == {"opt", "optref", "optvr", "masked", "mref", "dopt", "dmasked", "mo"}   \* optcr closes over const referents
 ValRef     == {"optref", "optcr", "optvr", "mref"}           \* the value is a reference to a caller's cell
 FlagRef    == {"optref", "optcr", "mref"}                    \* the flag is a reference to a caller's cell
 LiftedK(k) == k \notin PlainKinds
@@ -92,17 +107,31 @@ Apply2(f, x, y) ==
 
 Apply3(f, x, y, z) == Toy(Code[f], x, y, z)
 
-(* double operands: small integers (exact in binary64) and NaN, IEEE semantics.  Only the operations whose *)
-(* result on such operands is again a small integer, NaN or a bool are used on them.                       *)
+(* the mo family: the underlying value type is itself an xoptional over the algebra above; NAv = "missing" *)
+NAv == 2147470000
+IsNA(x) == x = NAv
+OApply1(f, x)       == IF IsNA(x) THEN NAv ELSE Apply1(f, x)
+OApply2(f, x, y)    == IF IsNA(x) \/ IsNA(y) THEN NAv ELSE Apply2(f, x, y)
+OApply3(f, x, y, z) == IF IsNA(x) \/ IsNA(y) \/ IsNA(z) THEN NAv ELSE Apply3(f, x, y, z)
+
+(* double operands.  A double is written as: an integer up to 2*10^9 as itself, NaN as NaNv, the infinities as  *)
+(* PInfv / NInfv, anything else as a hash of its bit pattern (HashLo..HashHi).  What a lifted call returns on     *)
+(* present double operands must be what the harness got from the same operation on the underlying doubles (o.u, *)
+(* recorded next to it); for small integer and NaN operands of the operations below the spec also computes the    *)
+(* IEEE result itself.                                                                                             *)
 NaNv == 2147480000                   \* how the harness writes a NaN
-InNum(v) == (v >= -2000000000 /\ v <= 2000000000) \/ v = NaNv
+PInfv == 2147480002
+NInfv == 2147480003
+InNum(v) == v >= -2000000000 /\ v <= NInfv
 IsNaN(x) == x = NaNv
+SmallD(x) == IsNaN(x) \/ (x >= -1000 /\ x <= 1000)
 Max2(x, y) == IF x >= y THEN x ELSE y
 Min2(x, y) == IF x <= y THEN x ELSE y
 DUnFuns  == {"pos", "neg", "lognot", "abs", "fabs", "ceil", "floor", "trunc", "round", "nearbyint", "rint",
              "isnan", "isinf", "isfinite"}
-DBinFuns == {"plus", "minus", "mul", "lt", "le", "gt", "ge", "fmax", "fmin"}
-DFuns    == DUnFuns \cup DBinFuns \cup {"fma", "eq", "ne", "plus_eq", "minus_eq"}
+DBinFuns == {"plus", "minus", "mul", "lt", "le", "gt", "ge", "fmax", "fmin", "lor", "land"}
+DFuns    == DUnFuns \cup DBinFuns \cup {"fma", "eq", "ne", "plus_eq", "minus_eq", "mul_eq"}
+DNoFuns  == {"mod", "band", "bor", "bxor", "bitnot", "mod_eq", "band_eq", "bor_eq", "bxor_eq"}   \* not defined for doubles
 DApply1(f, x) ==
     CASE f = "pos"    -> x
       [] f = "neg"    -> IF IsNaN(x) THEN NaNv ELSE -x
@@ -122,86 +151,133 @@ DApply2(f, x, y) == LET n == IsNaN(x) \/ IsNaN(y) IN
       [] f = "ge"    -> B2I(~n /\ x >= y)
       [] f = "fmax"  -> IF IsNaN(x) THEN y ELSE IF IsNaN(y) THEN x ELSE Max2(x, y)
       [] f = "fmin"  -> IF IsNaN(x) THEN y ELSE IF IsNaN(y) THEN x ELSE Min2(x, y)
+      [] f = "lor"   -> B2I(x # 0 \/ y # 0)                       \* NaN is "true"
+      [] f = "land"  -> B2I(x # 0 /\ y # 0)
 DApply3(f, x, y, z) == IF IsNaN(x) \/ IsNaN(y) \/ IsNaN(z) THEN NaNv ELSE x * y + z       \* fma
 ValEq(x, y) == x = y /\ ~IsNaN(x)                                 \* NaN == NaN is false
-DSmall == (-3)..3 \cup {NaNv}       \* what the drivers put into double registers (keeps products far from 2^31)
-NumFor(kind) == IF kind \in DKinds THEN DSmall ELSE (-M)..M
-DBound(x) == IsNaN(x) \/ (x >= -1000 /\ x <= 1000)   \* += / -= on doubles only while they are small (same reason)
+DTabIdx == 1000000..1000019          \* Load / Poke arguments that select one of the harness's remarkable doubles
+DArg    == (-1000)..1000 \cup {NaNv}       \* double arguments the spec knows the value of
+NumFor(kind) == IF kind \in DKinds THEN DArg ELSE IF kind \in MixKinds THEN (-M)..M \cup {NAv} ELSE (-M)..M
 
 ----------------------------------------------------------------------------
 (* Observations and what the property demands of them.                      *)
 MaxD == 16
-Want(kind, has, val, cmp, strict) == [kind |-> kind, has |-> has, val |-> val, cmp |-> cmp, strict |-> strict]
-    \* kind/has: always demanded.  val: demanded iff cmp.  strict: a missing result must come with d = 0
-    \* ("never evaluate the underlying operation on a missing operand").
+Want(kind, has, val, cmp, z, uv) == [kind |-> kind, has |-> has, val |-> val, cmp |-> cmp, z |-> z, uv |-> uv]
+    \* kind/has: always demanded.  val: demanded iff cmp.  z: the call must not evaluate the underlying operation
+    \* ("never evaluate the underlying operation on a missing operand").  uv: (doubles) a present result is the
+    \* recorded result of the same operation on the underlying values.
+(* || and && on doubles: xoptional answers in the operands' common type, xmasked_value in bool; both "equal the  *)
+(* same operation on the underlying values"                                                                        *)
+KindOK(ok, wk) == \/ ok = wk
+                  \/ wk = "dlogopt" /\ ok \in {"dopt", "optb"}
+                  \/ wk = "dlogmsk" /\ ok \in {"dmasked", "maskedb"}
+CanonKind(wk) == CASE wk = "dlogopt" -> "dopt" [] wk = "dlogmsk" -> "maskedb" [] OTHER -> wk
 Legal(o, w) ==
-    /\ o.kind = w.kind
+    /\ KindOK(o.kind, w.kind)
     /\ o.has = w.has
     /\ w.cmp => o.val = w.val
-    /\ (w.strict /\ ~w.has) => o.d = 0
+    /\ (w.uv /\ w.has) => o.val = o.u
+    /\ w.z => o.d = 0
     /\ o.d \in 0..MaxD
     /\ InNum(o.val)
-Canon(w) == [kind |-> w.kind, has |-> w.has, val |-> IF w.cmp THEN w.val ELSE 0, d |-> IF w.has /\ w.strict THEN 1 ELSE 0]
-VoidW == Want("void", TRUE, 0, TRUE, FALSE)
+Canon(w) == [kind |-> CanonKind(w.kind), has |-> w.has, val |-> IF w.cmp THEN w.val ELSE 0,
+             d |-> IF w.z THEN 0 ELSE 1, u |-> IF w.uv /\ w.cmp THEN w.val ELSE 0]
+Loose(kind, has, val, cmp) == Want(kind, has, val, cmp, FALSE, FALSE)       \* calls that may evaluate as they like
+Canon0(w) == [Canon(w) EXCEPT !.d = 0]
+VoidW == Loose("void", TRUE, 0, TRUE)
 
 KS(S)      == {r[i].kind : i \in S}
 HasOpt(ks) == ks \cap OptKinds # {}
 HasMsk(ks) == ks \cap MskKinds # {}
 IsD(ks)    == ks \cap DKinds # {}
+IsMix(ks)  == ks \cap MixKinds # {}
 PatOK(ks)  == /\ (HasOpt(ks) \/ HasMsk(ks)) /\ ~(HasOpt(ks) /\ HasMsk(ks))   \* some operand lifted, families not mixed
               /\ (IsD(ks) => ks \subseteq DKinds)                              \* one value type per call
-OpOK(f, ks) == IsD(ks) => f \in DFuns
-ResKind(ks, f) == IF f \in BoolRes THEN (IF HasOpt(ks) THEN "optb" ELSE "maskedb")
+              /\ (IsMix(ks) => ks \subseteq MixKinds)
+OpOK(f, ks) == IsD(ks) => f \notin DNoFuns
+ResKind(ks, f) == IF IsMix(ks) THEN (IF f \in BoolRes THEN "mob" ELSE "mo")
+                  ELSE IF IsD(ks) /\ f \in {"lor", "land"} THEN (IF HasOpt(ks) THEN "dlogopt" ELSE "dlogmsk")
+                  ELSE IF f \in BoolRes THEN (IF HasOpt(ks) THEN "optb" ELSE "maskedb")
                   ELSE IF IsD(ks) THEN (IF HasOpt(ks) THEN "dopt" ELSE "dmasked")
                   ELSE (IF HasOpt(ks) THEN "opt" ELSE "masked")
-Ap1(ks, f, x)       == IF IsD(ks) THEN DApply1(f, x) ELSE Apply1(f, x)
-Ap2(ks, f, x, y)    == IF IsD(ks) THEN DApply2(f, x, y) ELSE Apply2(f, x, y)
-Ap3(ks, f, x, y, z) == IF IsD(ks) THEN DApply3(f, x, y, z) ELSE Apply3(f, x, y, z)
-DivOK(f, present, divisor) == (f \in {"div", "mod"} /\ present) => divisor # 0   \* C++ precondition
+Ap1(ks, f, x)       == IF IsD(ks) THEN DApply1(f, x) ELSE IF IsMix(ks) THEN OApply1(f, x) ELSE Apply1(f, x)
+Ap2(ks, f, x, y)    == IF IsD(ks) THEN DApply2(f, x, y) ELSE IF IsMix(ks) THEN OApply2(f, x, y) ELSE Apply2(f, x, y)
+Ap3(ks, f, x, y, z) == IF IsD(ks) THEN DApply3(f, x, y, z) ELSE IF IsMix(ks) THEN OApply3(f, x, y, z) ELSE Apply3(f, x, y, z)
+(* the spec computes the value of a call itself: always for the integer algebra; for doubles when the operation is *)
+(* one of DFuns and every operand is a small integer or NaN                                                         *)
+Known(ks, f, xs) == IsD(ks) => (f \in DFuns /\ \A x \in xs : SmallD(x))
+(* C++ precondition: no integer division / modulo by a present zero *)
+DivOK(ks, f, present, divisor) == (f \in {"div", "mod"} /\ present /\ ~IsD(ks) /\ ~IsNA(divisor)) => divisor # 0
+
+----------------------------------------------------------------------------
+(* Cells.  A reference-kind register designates a value cell (and, for the kinds whose flag is a reference,  *)
+(* a flag cell); a write through one register shows in every register that designates the same cell.          *)
+SharesV(rr, nva, k, m) == rr[k].kind \in ValRef /\ rr[m].kind \in ValRef /\ nva[k] = nva[m]
+SharesF(rr, nfa, k, m) == rr[k].kind \in FlagRef /\ rr[m].kind \in FlagRef /\ nfa[k] = nfa[m]
+Prop(newr, nva, nfa) ==
+    LET Mod == {m \in Regs : newr[m] # r[m]} IN
+    [k \in Regs |->
+       IF k \in Mod THEN newr[k]
+       ELSE LET mv == {m \in Mod : SharesV(newr, nva, k, m)}
+                mf == {m \in Mod : SharesF(newr, nfa, k, m)}
+            IN [kind |-> newr[k].kind,
+                has  |-> IF mf = {} THEN newr[k].has ELSE newr[CHOOSE m \in mf : TRUE].has,
+                val  |-> IF mv = {} THEN newr[k].val ELSE newr[CHOOSE m \in mv : TRUE].val]]
+(* a cell id no other register uses *)
+Fresh(ids, i) == CHOOSE k \in Regs : (\A j \in Regs \ {i} : ids[j] # k) /\ (\A n \in Regs : (\A j \in Regs \ {i} : ids[j] # n) => k <= n)
+ReVa(i) == [va EXCEPT ![i] = Fresh(va, i)]
+ReFa(i) == [fa EXCEPT ![i] = Fresh(fa, i)]
 
 Store(d, o) == IF d = 0 THEN r ELSE [r EXCEPT ![d] = [kind |-> o.kind, has |-> o.has, val |-> o.val]]
 DestOK(d, f, ks) == d \in {0} \cup Regs /\ (d # 0 => f \notin BoolRes /\ ~IsD(ks))   \* double results are not fed back
 
-Do(op, a, o, newr) ==
-    /\ pre' = r
-    /\ r' = newr
+DoA(op, a, o, newr, nva, nfa) ==
+    /\ pre' = [r |-> r, va |-> va, fa |-> fa]
+    /\ r' = Prop(newr, nva, nfa)
+    /\ va' = nva /\ fa' = nfa
     /\ evals' = evals + o.d
     /\ last' = [op |-> op, a |-> a, res |-> o]
+Do(op, a, o, newr) == DoA(op, a, o, newr, va, fa)
+(* a call whose result is stored into register d re-creates d as a value register *)
+DoS(op, a, o, d) == IF d = 0 THEN Do(op, a, o, r) ELSE DoA(op, a, o, Store(d, o), ReVa(d), ReFa(d))
 
 ----------------------------------------------------------------------------
 (* The lifted calls.                                                         *)
 
 (* op x, f(x): present iff x is; lifted <cmath> names are never evaluated on a missing x (the *)
 (* built-in unary operators are exempt from that clause, as in the property statement).      *)
-WUnary(f, i) == LET x == r[i] IN
-    Want(ResKind({x.kind}, f), x.has, IF x.has THEN Ap1({x.kind}, f, x.val) ELSE 0, x.has, f \in UFuns \cup UPreds)
+WUnary(f, i) == LET x == r[i]  ks == {x.kind}  q == ~IsNA(x.val)  strict == f \in UFuns \cup UPreds IN
+    Want(ResKind(ks, f), x.has, IF x.has /\ Known(ks, f, {x.val}) THEN Ap1(ks, f, x.val) ELSE 0,
+         x.has /\ Known(ks, f, {x.val}), strict /\ ~(x.has /\ q), IsD(ks))
 Unary(f, i, d, o) ==
     /\ f \in UnOps \cup UFuns \cup UPreds /\ i \in Regs /\ LiftedK(r[i].kind) /\ OpOK(f, KS({i})) /\ DestOK(d, f, KS({i}))
     /\ Legal(o, WUnary(f, i))
-    /\ Do("Unary", [f |-> f, i |-> i, d |-> d], o, Store(d, o))
+    /\ DoS("Unary", [f |-> f, i |-> i, d |-> d], o, d)
 
 (* x op y, f(x, y) *)
-WBinary(f, i, j) == LET x == r[i]  y == r[j]  p == x.has /\ y.has IN
-    Want(ResKind({x.kind, y.kind}, f), p, IF p THEN Ap2({x.kind, y.kind}, f, x.val, y.val) ELSE 0, p, TRUE)
+WBinary(f, i, j) == LET x == r[i]  y == r[j]  ks == {x.kind, y.kind}  p == x.has /\ y.has
+                        q == ~IsNA(x.val) /\ ~IsNA(y.val)  kn == Known(ks, f, {x.val, y.val}) IN
+    Want(ResKind(ks, f), p, IF p /\ kn THEN Ap2(ks, f, x.val, y.val) ELSE 0, p /\ kn, ~(p /\ q), IsD(ks))
 Binary(f, i, j, d, o) ==
     /\ f \in BinOps \cup BFuns /\ i \in Regs /\ j \in Regs /\ PatOK(KS({i, j})) /\ OpOK(f, KS({i, j})) /\ DestOK(d, f, KS({i, j}))
-    /\ DivOK(f, r[i].has /\ r[j].has, r[j].val)
+    /\ DivOK(KS({i, j}), f, r[i].has /\ r[j].has /\ ~IsNA(r[i].val), r[j].val)
     /\ Legal(o, WBinary(f, i, j))
-    /\ Do("Binary", [f |-> f, i |-> i, j |-> j, d |-> d], o, Store(d, o))
+    /\ DoS("Binary", [f |-> f, i |-> i, j |-> j, d |-> d], o, d)
 
 (* f(x, y, z) *)
-WTernary(f, i, j, k) == LET x == r[i]  y == r[j]  z == r[k]  p == x.has /\ y.has /\ z.has IN
-    Want(ResKind({x.kind, y.kind, z.kind}, f), p, IF p THEN Ap3({x.kind, y.kind, z.kind}, f, x.val, y.val, z.val) ELSE 0, p, TRUE)
+WTernary(f, i, j, k) == LET x == r[i]  y == r[j]  z == r[k]  ks == {x.kind, y.kind, z.kind}  p == x.has /\ y.has /\ z.has
+                            q == ~IsNA(x.val) /\ ~IsNA(y.val) /\ ~IsNA(z.val)  kn == Known(ks, f, {x.val, y.val, z.val}) IN
+    Want(ResKind(ks, f), p, IF p /\ kn THEN Ap3(ks, f, x.val, y.val, z.val) ELSE 0, p /\ kn, ~(p /\ q), IsD(ks))
 Ternary(f, i, j, k, d, o) ==
     /\ f \in TFuns /\ i \in Regs /\ j \in Regs /\ k \in Regs /\ PatOK(KS({i, j, k})) /\ OpOK(f, KS({i, j, k})) /\ DestOK(d, f, KS({i, j, k}))
     /\ Legal(o, WTernary(f, i, j, k))
-    /\ Do("Ternary", [f |-> f, i |-> i, j |-> j, k |-> k, d |-> d], o, Store(d, o))
+    /\ DoS("Ternary", [f |-> f, i |-> i, j |-> j, k |-> k, d |-> d], o, d)
 
 (* x == y, x != y: a plain bool.  Two missing values are equal, a missing and a present one are *)
 (* unequal, two present ones compare their values; != is the exact negation.                    *)
 EqRegs(x, y) == (~x.has /\ ~y.has) \/ (x.has /\ y.has /\ ValEq(x.val, y.val))
-WCompare(f, i, j) == LET e == EqRegs(r[i], r[j]) IN
-    Want("bool", TRUE, B2I(IF f = "eq" THEN e ELSE ~e), TRUE, FALSE)
+WCompare(f, i, j) == LET e == EqRegs(r[i], r[j])  ks == KS({i, j}) IN
+    Want("bool", TRUE, B2I(IF f = "eq" THEN e ELSE ~e), TRUE, FALSE, IsD(ks) /\ r[i].has /\ r[j].has)
 Compare(f, i, j, o) ==
     /\ f \in CmpOps /\ i \in Regs /\ j \in Regs /\ PatOK(KS({i, j}))      \* (eq, ne are defined for double operands too)
     /\ Legal(o, WCompare(f, i, j))
@@ -209,12 +285,13 @@ Compare(f, i, j, o) ==
 
 (* x op= y: the observation is the destination afterwards.  Missing operand: not evaluated, the *)
 (* destination becomes missing; for /= and %= the property also demands the value is untouched. *)
-WCompound(f, i, j) == LET x == r[i]  y == r[j]  p == x.has /\ y.has  b == AsgBase[f] IN
-    Want(x.kind, p, IF p THEN Ap2({x.kind, y.kind}, b, x.val, y.val) ELSE x.val, p \/ b \in {"div", "mod"}, TRUE)
+WCompound(f, i, j) == LET x == r[i]  y == r[j]  ks == {x.kind, y.kind}  p == x.has /\ y.has  b == AsgBase[f]
+                          q == ~IsNA(x.val) /\ ~IsNA(y.val)  kn == Known(ks, f, {x.val, y.val}) IN
+    Want(x.kind, p, IF p THEN (IF kn THEN Ap2(ks, b, x.val, y.val) ELSE 0) ELSE x.val,
+         (p /\ kn) \/ (~p /\ b \in {"div", "mod"}), ~(p /\ q), IsD(ks))
 Compound(f, i, j, o) ==
     /\ f \in AsgOps /\ i \in Regs /\ j \in Regs /\ r[i].kind \in Writable /\ PatOK(KS({i, j})) /\ OpOK(f, KS({i, j}))
-    /\ IsD(KS({i, j})) => DBound(r[i].val) /\ DBound(r[j].val)
-    /\ DivOK(AsgBase[f], r[i].has /\ r[j].has, r[j].val)
+    /\ DivOK(KS({i, j}), AsgBase[f], r[i].has /\ r[j].has /\ ~IsNA(r[i].val), r[j].val)
     /\ Legal(o, WCompound(f, i, j))
     /\ Do("Compound", [f |-> f, i |-> i, j |-> j], o,
           [r EXCEPT ![i] = [kind |-> @.kind, has |-> o.has, val |-> o.val]])
@@ -222,68 +299,92 @@ Compound(f, i, j, o) ==
 (* select(c, x, y): missing when the condition is missing, otherwise the chosen branch unchanged. *)
 (* c = [lifted, has, val]: a plain bool (lifted = FALSE, has = TRUE) or an xoptional<bool>.       *)
 WSelect(c, i, j) == LET b == IF c.val THEN r[i] ELSE r[j]  p == c.has /\ b.has IN
-    Want(IF IsD(KS({i, j})) THEN "dopt" ELSE "opt", p, b.val, p, FALSE)
+    Loose(IF IsD(KS({i, j})) THEN "dopt" ELSE "opt", p, b.val, p)
 Select(c, i, j, d, o) ==
     /\ i \in Regs /\ j \in Regs /\ d \in {0} \cup Regs /\ (d # 0 => ~IsD(KS({i, j})))
-    /\ KS({i, j}) \subseteq OptKinds \cup PlainKinds /\ (IsD(KS({i, j})) => KS({i, j}) \subseteq DKinds)
+    /\ KS({i, j}) \subseteq OptKinds \cup (PlainKinds \ MixKinds) /\ (IsD(KS({i, j})) => KS({i, j}) \subseteq DKinds)
     /\ IF c.lifted THEN KS({i, j}) # {"int"} ELSE c.has /\ HasOpt(KS({i, j}))
     /\ Legal(o, WSelect(c, i, j))
-    /\ Do("Select", [c |-> c, i |-> i, j |-> j, d |-> d], o, Store(d, o))
+    /\ DoS("Select", [c |-> c, i |-> i, j |-> j, d |-> d], o, d)
 
 (* x.value_or(dv): the value when present, the default otherwise. *)
-WValueOr(i, dv) == Want(IF r[i].kind \in DKinds THEN "dplain" ELSE "plain", TRUE, IF r[i].has THEN r[i].val ELSE dv, TRUE, FALSE)
-ValueOr(i, dv, o) ==
-    /\ i \in Regs /\ r[i].kind \in OptKinds /\ dv \in NumFor(r[i].kind)
+WValueOr(i, dv) == Loose(IF r[i].kind \in DKinds THEN "dplain" ELSE "plain", TRUE, IF r[i].has THEN r[i].val ELSE dv, TRUE)
+(* form: on the object itself (lv), on an rvalue (rv), on a const rvalue (crv): the two overloads of value_or *)
+ValueOr(i, dv, form, o) ==
+    /\ i \in Regs /\ r[i].kind \in OptKinds /\ dv \in NumFor(r[i].kind) /\ form \in {"lv", "rv", "crv"}
     /\ Legal(o, WValueOr(i, dv))
-    /\ Do("ValueOr", [i |-> i, dv |-> dv], o, r)
+    /\ Do("ValueOr", [i |-> i, dv |-> dv, form |-> form], o, r)
 
 ----------------------------------------------------------------------------
-(* Housekeeping calls (construction, accessors, plain assignment, swap).     *)
-(* They build the operands the lifted calls are applied to; their semantics  *)
-(* is the documented one of the two classes, not part of the property        *)
-(* sentence, so a mismatch here is reported as advisory (MODEL-DRIFT).       *)
+(* Construction and the accessors: what "an operand that is present / missing and holds v" means.  A       *)
+(* register built from (v, flag) through the two-argument constructor reads back flag and v through           *)
+(* has_value() / visible() / value(); for a reference closure these are the caller's cells.  The other         *)
+(* housekeeping calls (further constructors and factories, free and rvalue accessors, conversion, streaming,  *)
+(* plain assignment, swap) follow the documented behaviour of the two classes; the statement of the property   *)
+(* does not name them and the runner reports a deviation there as advisory (MODEL-DRIFT).                      *)
 
 LoadHows == {"plain", "int", "opt2", "opt1", "optdef", "missing", "optional_vv", "optref", "optional_rr", "optcr",
              "optvr", "optional_rv", "masked2", "masked1", "maskeddef", "maskedf", "masked_value1", "masked_value2",
-             "mref", "masked_value_rr", "dplain", "dopt2", "dmasked2"}
+             "mref", "masked_value_rr", "dplain", "dopt2", "dmasked2", "mo2", "po2",
+             "opt_from_ref", "opt_from_cref", "opt_from_vr", "opt_from_int", "opt_from_intmv"}
 LoadKind(how) ==
     CASE how \in {"plain", "int", "dplain"} -> how
       [] how = "dopt2" -> "dopt"
       [] how = "dmasked2" -> "dmasked"
-      [] how \in {"opt2", "opt1", "optdef", "missing", "optional_vv"} -> "opt"
+      [] how = "mo2" -> "mo"
+      [] how = "po2" -> "po"
+      [] how \in {"opt2", "opt1", "optdef", "missing", "optional_vv", "opt_from_ref", "opt_from_cref", "opt_from_vr",
+                  "opt_from_int", "opt_from_intmv"} -> "opt"
       [] how \in {"optref", "optional_rr"} -> "optref"
       [] how = "optcr" -> "optcr"
       [] how \in {"optvr", "optional_rv"} -> "optvr"
       [] how \in {"masked2", "masked1", "maskeddef", "maskedf", "masked_value1", "masked_value2"} -> "masked"
       [] how \in {"mref", "masked_value_rr"} -> "mref"
 \* value-only constructors give a present value; default-constructed xoptional / missing<T>() / masked<T>() are
-\* missing with an unspecified value; a default-constructed xmasked_value is left unconstrained
+\* missing with an unspecified value; a default-constructed xmasked_value is left unconstrained.  The value
+\* stored behind a missing flag is kept (it is the caller's cell for reference closures); for one of the
+\* harness's remarkable doubles the spec takes the value as recorded.
+LoadArgs(how) == IF LoadKind(how) \in DKinds THEN DArg \cup DTabIdx ELSE NumFor(LoadKind(how))
 WLoad(how, has, v) ==
-    CASE how \in {"plain", "int", "dplain", "opt1", "masked1", "masked_value1"} -> Want(LoadKind(how), TRUE, v, TRUE, FALSE)
-      [] how \in {"optdef", "missing", "maskedf"} -> Want(LoadKind(how), FALSE, 0, FALSE, FALSE)
-      [] how = "maskeddef" -> Want("masked", TRUE, 0, FALSE, FALSE)
-      [] OTHER -> Want(LoadKind(how), has, v, TRUE, FALSE)
+    CASE how \in {"plain", "int", "dplain", "opt1", "masked1", "masked_value1", "po2"} -> Loose(LoadKind(how), TRUE, v, v \notin DTabIdx)
+      [] how \in {"optdef", "missing", "maskedf"} -> Loose(LoadKind(how), FALSE, 0, FALSE)
+      [] how = "maskeddef" -> Loose("masked", TRUE, 0, FALSE)
+      [] OTHER -> Loose(LoadKind(how), has, v, v \notin DTabIdx)
 Load(i, how, has, v, o) ==
-    /\ i \in Regs /\ how \in LoadHows /\ has \in BOOLEAN /\ v \in NumFor(LoadKind(how))
+    /\ i \in Regs /\ how \in LoadHows /\ has \in BOOLEAN /\ v \in LoadArgs(how)
     /\ IF how = "maskeddef" THEN o.kind = "masked" /\ o.val \in (-M)..M /\ o.d \in 0..MaxD
                             ELSE Legal(o, WLoad(how, has, v))
-    /\ Do("Load", [i |-> i, how |-> how, has |-> has, v |-> v], o,
-          [r EXCEPT ![i] = [kind |-> o.kind, has |-> o.has, val |-> o.val]])
+    /\ DoA("Load", [i |-> i, how |-> how, has |-> has, v |-> v], o,
+           [r EXCEPT ![i] = [kind |-> o.kind, has |-> o.has, val |-> o.val]], ReVa(i), ReFa(i))
 
-(* has_value()/visible() and value(), through members, free functions, rvalue overloads, conversion *)
+(* register i becomes a reference closure of kind `how` over the cells register j closes over: the value cell, *)
+(* and the flag cell too unless the new closure holds its flag by value (optvr: flag = has)                     *)
+AliasHows == {"optref", "optcr", "optvr", "mref"}
+Alias(i, how, j, has, o) ==
+    /\ i \in Regs /\ j \in Regs /\ i # j /\ how \in AliasHows /\ has \in BOOLEAN
+    /\ r[j].kind \in (IF how = "optvr" THEN ValRef ELSE FlagRef)
+    /\ LET h == IF how = "optvr" THEN has ELSE r[j].has IN
+       /\ Legal(o, Loose(how, h, r[j].val, TRUE))
+       /\ DoA("Alias", [i |-> i, how |-> how, j |-> j, has |-> has], o,
+              [r EXCEPT ![i] = [kind |-> how, has |-> h, val |-> r[j].val]],
+              [va EXCEPT ![i] = va[j]],
+              IF how = "optvr" THEN ReFa(i) ELSE [fa EXCEPT ![i] = fa[j]])
+
+(* has_value()/visible() and value(), through members, free functions, rvalue overloads, conversion, operator<< *)
 Get(i, path, o) ==
     /\ i \in Regs
-    /\ \/ path \in {"member", "rvalue"} /\ LiftedK(r[i].kind)
+    /\ \/ path = "member" /\ LiftedK(r[i].kind)
+       \/ path \in {"rvalue", "stream"} /\ LiftedK(r[i].kind) /\ r[i].kind \notin MixKinds
        \/ path = "free" /\ r[i].kind \in OptKinds \cup {"plain"}
-       \/ path = "conv" /\ r[i].kind \in MskKinds
-    /\ Legal(o, Want("get", r[i].has, r[i].val, TRUE, FALSE))
+       \/ path = "conv" /\ r[i].kind \in MskKinds \ MixKinds
+    /\ Legal(o, Loose("get", r[i].has, r[i].val, path # "stream" \/ r[i].has))      \* (a missing value prints as a word)
     /\ Do("Get", [i |-> i, path |-> path], o, r)
 
 SetFlag(i, b, o) ==
     /\ i \in Regs /\ r[i].kind \in Writable /\ b \in BOOLEAN /\ Legal(o, VoidW)
     /\ Do("SetFlag", [i |-> i, b |-> b], o, [r EXCEPT ![i].has = b])
 SetVal(i, v, o) ==
-    /\ i \in Regs /\ r[i].kind # "optcr" /\ v \in NumFor(r[i].kind) /\ Legal(o, VoidW)
+    /\ i \in Regs /\ r[i].kind \notin {"optcr", "mo", "po"} /\ v \in NumFor(r[i].kind) /\ Legal(o, VoidW)
     /\ Do("SetVal", [i |-> i, v |-> v], o, [r EXCEPT ![i].val = v])
 (* the caller writes the referents of a reference closure directly *)
 Poke(i, has, v, o) ==
@@ -293,14 +394,14 @@ Poke(i, has, v, o) ==
 
 (* x = v: an xoptional becomes present; a masked xmasked_value ignores the assignment *)
 AssignVal(i, v, o) ==
-    /\ i \in Regs /\ r[i].kind \in Writable /\ v \in NumFor(r[i].kind) /\ Legal(o, VoidW)
+    /\ i \in Regs /\ r[i].kind \in Writable \ MixKinds /\ v \in NumFor(r[i].kind) /\ Legal(o, VoidW)
     /\ Do("AssignVal", [i |-> i, v |-> v], o,
           [r EXCEPT ![i] = IF @.kind \in OptKinds THEN [kind |-> @.kind, has |-> TRUE, val |-> v]
                            ELSE IF @.has THEN [kind |-> @.kind, has |-> TRUE, val |-> v] ELSE @])
 (* x = y (same family).  Closures with reference members are not copy-assignable from their own type. *)
 Assignable(a, b) == ~(a = b /\ a \in ValRef)
 AssignReg(i, j, o) ==
-    /\ i \in Regs /\ j \in Regs /\ r[i].kind \in Writable /\ LiftedK(r[j].kind)
+    /\ i \in Regs /\ j \in Regs /\ r[i].kind \in Writable /\ LiftedK(r[j].kind) /\ ~IsMix(KS({i, j}))
     /\ (r[i].kind \in OptKinds) = (r[j].kind \in OptKinds) /\ Assignable(r[i].kind, r[j].kind)
     /\ (r[i].kind \in DKinds) = (r[j].kind \in DKinds)
     /\ Legal(o, VoidW)
@@ -309,7 +410,7 @@ AssignReg(i, j, o) ==
            nv == IF x.kind \in OptKinds \/ x.kind = y.kind THEN y.val ELSE IF nh THEN y.val ELSE x.val
        IN Do("AssignReg", [i |-> i, j |-> j], o, [r EXCEPT ![i] = [kind |-> x.kind, has |-> nh, val |-> nv]])
 Swap(i, j, how, o) ==
-    /\ i \in Regs /\ j \in Regs /\ r[i].kind = r[j].kind /\ r[i].kind \in Writable
+    /\ i \in Regs /\ j \in Regs /\ r[i].kind = r[j].kind /\ r[i].kind \in Writable \ MixKinds
     /\ how \in {"member", "free"} /\ (how = "free" => r[i].kind \in MskKinds) /\ Legal(o, VoidW)
     /\ Do("Swap", [i |-> i, j |-> j, how |-> how], o,
           [r EXCEPT ![i] = [kind |-> @.kind, has |-> r[j].has, val |-> r[j].val],
@@ -317,22 +418,36 @@ Swap(i, j, how, o) ==
 
 ----------------------------------------------------------------------------
 (* What the harness reports about every register after each call.           *)
+MinOf(S) == CHOOSE m \in S : \A n \in S : m <= n
+AV(i) == IF r[i].kind \in ValRef THEN MinOf({k \in Regs : SharesV(r, va, i, k)}) ELSE i
+AF(i) == IF r[i].kind \in FlagRef THEN MinOf({k \in Regs : SharesF(r, fa, i, k)}) ELSE i
 Proj(i) == LET x == r[i] IN
     [kind |-> x.kind, has |-> x.has, val |-> x.val,
      ref  |-> [has |-> IF x.kind \in FlagRef THEN x.has ELSE FALSE,      \* the caller's cells behind a
-               val |-> IF x.kind \in ValRef THEN x.val ELSE 0]]          \* reference closure, read directly
+               val |-> IF x.kind \in ValRef THEN x.val ELSE 0],          \* reference closure, read directly
+     al   |-> [v |-> AV(i), f |-> AF(i)]]                                \* the lowest register closing over the same cell
 ProjAll == [r |-> [i \in Regs |-> Proj(i)], evals |-> evals]
 
 ----------------------------------------------------------------------------
 (* Model checking.                                                          *)
 PlainZero == [kind |-> "plain", has |-> TRUE, val |-> 0]
 RegVals == {[kind |-> k, has |-> h, val |-> v] : k \in MCKinds, h \in BOOLEAN, v \in Vals}
-InitRegs == {x \in RegVals : (x.kind \in PlainKinds => x.has) /\ x.val \in NumFor(x.kind)}
+InitRegs == {x \in RegVals : (x.kind \in PlainKinds => x.has) /\ x.val \in (IF x.kind \in DKinds THEN DArg \cup DTabIdx ELSE NumFor(x.kind))}
+Ident == [i \in 1..NReg |-> i]
+InitGhost ==
+    /\ evals = 0
+    /\ last = [op |-> "Init", a |-> [z |-> 0], res |-> Canon0(VoidW)]
+    /\ pre = [r |-> r, va |-> va, fa |-> fa]
+(* register 2 closes over the cells of register 1: the value cell only (it holds its flag by value) or both *)
 Init ==
     /\ r \in [1..NReg -> InitRegs]
-    /\ evals = 0
-    /\ last = [op |-> "Init", a |-> [z |-> 0], res |-> Canon(VoidW)]
-    /\ pre = r
+    /\ \/ va = Ident /\ fa = Ident
+       \/ /\ AliasInit /\ NReg >= 2
+          /\ r[1].kind \in ValRef /\ r[2].kind \in ValRef /\ r[1].val = r[2].val
+          /\ va = [Ident EXCEPT ![2] = 1]
+          /\ \/ r[2].kind = "optvr" /\ fa = Ident
+             \/ r[2].kind \in FlagRef /\ r[1].kind \in FlagRef /\ r[1].has = r[2].has /\ fa = [Ident EXCEPT ![2] = 1]
+    /\ InitGhost
 
 F(S) == S \cap MCFuns
 Conds == {[lifted |-> FALSE, has |-> TRUE, val |-> b] : b \in BOOLEAN}
@@ -344,64 +459,81 @@ I3 == IF Canonical THEN {3} ELSE Regs
 D0 == IF Canonical THEN {0} ELSE 0..NReg
 C(S) == Canonical => Idle(S)
 
-(* the single-call enumeration (Canonical) expands initial states only *)
-G == Canonical => last.op = "Init"
+(* the single-call enumerations (Canonical, AliasInit) expand initial states only *)
+G == (Canonical \/ AliasInit) => last.op = "Init"
 
 NUnary == G /\ "unary" \in Classes /\ C({2, 3}) /\ \E f \in F(UnOps \cup UFuns \cup UPreds), i \in I1, d \in D0 :
     LiftedK(r[i].kind) /\ OpOK(f, KS({i})) /\ Unary(f, i, d, Canon(WUnary(f, i)))
 NBinary == G /\ "binary" \in Classes /\ C({3}) /\ \E f \in F(BinOps \cup BFuns), i \in I1, j \in I2, d \in D0 :
-    DivOK(f, r[i].has /\ r[j].has, r[j].val) /\ PatOK(KS({i, j})) /\ OpOK(f, KS({i, j})) /\ Binary(f, i, j, d, Canon(WBinary(f, i, j)))
+    PatOK(KS({i, j})) /\ OpOK(f, KS({i, j})) /\ Binary(f, i, j, d, Canon(WBinary(f, i, j)))
 NTernary == G /\ "ternary" \in Classes /\ \E f \in F(TFuns), i \in I1, j \in I2, k \in I3, d \in D0 :
     PatOK(KS({i, j, k})) /\ OpOK(f, KS({i, j, k})) /\ Ternary(f, i, j, k, d, Canon(WTernary(f, i, j, k)))
-NCompare == G /\ "compare" \in Classes /\ C({3}) /\ \E f \in F(CmpOps), i \in I1, j \in I2 : Compare(f, i, j, Canon(WCompare(f, i, j)))
+NCompare == G /\ "compare" \in Classes /\ C({3}) /\ \E f \in F(CmpOps), i \in I1, j \in I2 : Compare(f, i, j, Canon0(WCompare(f, i, j)))
 NCompound == G /\ "compound" \in Classes /\ C({3}) /\ \E f \in F(AsgOps), i \in I1, j \in I2 :
-    DivOK(AsgBase[f], r[i].has /\ r[j].has, r[j].val) /\ PatOK(KS({i, j})) /\ OpOK(f, KS({i, j})) /\ Compound(f, i, j, Canon(WCompound(f, i, j)))
+    (IF Canonical THEN TRUE ELSE i # j) /\ PatOK(KS({i, j})) /\ OpOK(f, KS({i, j})) /\ Compound(f, i, j, Canon(WCompound(f, i, j)))
 NCompoundSelf == G /\ "compound" \in Classes /\ C({2, 3}) /\ \E f \in F(AsgOps), i \in I1 :          \* x op= x
-    DivOK(AsgBase[f], r[i].has, r[i].val) /\ LiftedK(r[i].kind) /\ OpOK(f, KS({i})) /\ Compound(f, i, i, Canon(WCompound(f, i, i)))
-NSelect == G /\ "select" \in Classes /\ C({3}) /\ \E c \in Conds, i \in I1, j \in I2, d \in D0 : Select(c, i, j, d, Canon(WSelect(c, i, j)))
-NValueOr == G /\ "valueor" \in Classes /\ C({2, 3}) /\ \E i \in I1, dv \in Vals : r[i].kind \in OptKinds /\ ValueOr(i, dv, Canon(WValueOr(i, dv)))
-NGet == G /\ "access" \in Classes /\ C({2, 3}) /\ \E i \in I1, p \in {"member", "free", "rvalue", "conv"} :
-    Get(i, p, Canon(Want("get", r[i].has, r[i].val, TRUE, FALSE)))
-NSetFlag == G /\ "access" \in Classes /\ C({2, 3}) /\ \E i \in I1, b \in BOOLEAN : SetFlag(i, b, Canon(VoidW))
-NSetVal == G /\ "access" \in Classes /\ C({2, 3}) /\ \E i \in I1, v \in Vals : SetVal(i, v, Canon(VoidW))
-NAssignVal == G /\ "access" \in Classes /\ C({2, 3}) /\ \E i \in I1, v \in Vals : AssignVal(i, v, Canon(VoidW))
-NPoke == G /\ "access" \in Classes /\ C({2, 3}) /\ \E i \in I1, v \in Vals, h \in BOOLEAN : Poke(i, h, v, Canon(VoidW))
-NAssignReg == G /\ "assign" \in Classes /\ C({3}) /\ \E i \in I1, j \in I2 : AssignReg(i, j, Canon(VoidW))
-NSwap == G /\ "assign" \in Classes /\ C({3}) /\ \E i \in I1, j \in I2, how \in {"member", "free"} : Swap(i, j, how, Canon(VoidW))
-NLoad == G /\ "load" \in Classes /\ C({1, 2, 3}) /\ \E i \in I1, how \in LoadHows, h \in BOOLEAN, v \in Vals :
-    /\ how \in {"plain", "int", "dplain", "opt1", "masked1", "masked_value1", "optdef", "missing", "maskedf", "maskeddef"} => h
+    LiftedK(r[i].kind) /\ OpOK(f, KS({i})) /\ Compound(f, i, i, Canon(WCompound(f, i, i)))
+NSelect == G /\ "select" \in Classes /\ C({3}) /\ \E c \in Conds, i \in I1, j \in I2, d \in D0 : Select(c, i, j, d, Canon0(WSelect(c, i, j)))
+NValueOr == G /\ "valueor" \in Classes /\ C({2, 3}) /\ \E i \in I1, dv \in Vals, form \in {"lv", "rv", "crv"} : r[i].kind \in OptKinds /\ ValueOr(i, dv, form, Canon0(WValueOr(i, dv)))
+NGet == G /\ "access" \in Classes /\ C({2, 3}) /\ \E i \in I1, p \in {"member", "free", "rvalue", "conv", "stream"} :
+    Get(i, p, Canon0(Loose("get", r[i].has, r[i].val, TRUE)))
+NSetFlag == G /\ "access" \in Classes /\ C({2, 3}) /\ \E i \in I1, b \in BOOLEAN : SetFlag(i, b, Canon0(VoidW))
+NSetVal == G /\ "access" \in Classes /\ C({2, 3}) /\ \E i \in I1, v \in Vals : SetVal(i, v, Canon0(VoidW))
+NAssignVal == G /\ "access" \in Classes /\ C({2, 3}) /\ \E i \in I1, v \in Vals : AssignVal(i, v, Canon0(VoidW))
+NPoke == G /\ "access" \in Classes /\ C({2, 3}) /\ \E i \in I1, v \in Vals, h \in BOOLEAN : Poke(i, h, v, Canon0(VoidW))
+NAssignReg == G /\ "assign" \in Classes /\ C({3}) /\ \E i \in I1, j \in I2 : AssignReg(i, j, Canon0(VoidW))
+NSwap == G /\ "assign" \in Classes /\ C({3}) /\ \E i \in I1, j \in I2, how \in {"member", "free"} : Swap(i, j, how, Canon0(VoidW))
+NLoad == G /\ "load" \in Classes /\ C({1, 2, 3}) /\ \E i \in I1, how \in LoadHows \cap MCHows, h \in BOOLEAN, v \in Vals :
+    /\ how \in {"plain", "int", "dplain", "opt1", "masked1", "masked_value1", "optdef", "missing", "maskedf", "maskeddef", "po2"} => h
     /\ how \in {"optdef", "missing", "maskedf", "maskeddef"} => v = 0
-    /\ Load(i, how, h, v, IF how = "maskeddef" THEN [kind |-> "masked", has |-> TRUE, val |-> 0, d |-> 0]
-                                               ELSE Canon(WLoad(how, h, v)))
+    /\ Load(i, how, h, v, IF how = "maskeddef" THEN [kind |-> "masked", has |-> TRUE, val |-> 0, d |-> 0, u |-> 0]
+                                               ELSE Canon0(WLoad(how, h, v)))
+NAlias == G /\ ("load" \in Classes \/ "alias" \in Classes) /\ ~Canonical /\ \E i \in Regs, j \in Regs, how \in AliasHows, h \in BOOLEAN :
+    /\ how # "optvr" => h
+    /\ i # j /\ r[j].kind \in (IF how = "optvr" THEN ValRef ELSE FlagRef)
+    /\ Alias(i, how, j, h, Canon0(Loose(how, IF how = "optvr" THEN h ELSE r[j].has, r[j].val, TRUE)))
 
 Next == \/ NUnary \/ NBinary \/ NTernary \/ NCompare \/ NCompound \/ NCompoundSelf \/ NSelect \/ NValueOr
-        \/ NGet \/ NSetFlag \/ NSetVal \/ NAssignVal \/ NPoke \/ NAssignReg \/ NSwap \/ NLoad
+        \/ NGet \/ NSetFlag \/ NSetVal \/ NAssignVal \/ NPoke \/ NAssignReg \/ NSwap \/ NLoad \/ NAlias
 
 Spec == Init /\ [][Next]_vars
 
 (* simulation walks start from three plain zeros and build their operands with Load *)
 SimInit ==
     /\ r = [i \in 1..NReg |-> PlainZero]
-    /\ evals = 0
-    /\ last = [op |-> "Init", a |-> [z |-> 0], res |-> Canon(VoidW)]
-    /\ pre = r
+    /\ va = Ident /\ fa = Ident
+    /\ InitGhost
 SimSpec == SimInit /\ [][Next]_vars
 
 (* S->C: the single-call enumeration: only transitions out of initial states are allowed, and every such *)
-(* transition is written out: the registers before, and the call (an ACTION_CONSTRAINT of the s2c configs) *)
+(* transition is written out: the registers before (with the cells they share), and the call (an        *)
+(* ACTION_CONSTRAINT of the s2c configs)                                                                  *)
 Emit == /\ last.op = "Init"
-        /\ EmitOn => PrintT("@E@" \o ToJson([p |-> [i \in Regs |-> pre'[i]], l |-> [op |-> last'.op, a |-> last'.a]]))
+        /\ EmitOn => PrintT("@E@" \o ToJson([p |-> [i \in Regs |-> pre'.r[i]], va |-> pre'.va, fa |-> pre'.fa,
+                                            l |-> [op |-> last'.op, a |-> last'.a]]))
 (* multi-step exploration: keep the value space small *)
 Small == \A i \in Regs : r[i].val \in -6..6
 Smaller == \A i \in Regs : r[i].val \in -2..3
+Tiny == \A i \in Regs : r[i].val \in {-2, 0, 2}
 
 ----------------------------------------------------------------------------
 (* Theorems of the specification itself (they guard the oracle).            *)
 TypeOK ==
     /\ \A i \in Regs : /\ r[i].kind \in Kinds /\ r[i].has \in BOOLEAN /\ InNum(r[i].val)
-                       /\ (r[i].kind \notin DKinds => r[i].val \in (-M)..M)
+                       /\ (r[i].kind \notin DKinds \cup MixKinds => r[i].val \in (-M)..M)
+                       /\ (r[i].kind \in MixKinds => r[i].val \in (-M)..M \cup {NAv})
                        /\ (r[i].kind \in PlainKinds => r[i].has)
+                       /\ va[i] \in Regs /\ fa[i] \in Regs
     /\ evals \in Nat
+
+(* registers that close over one cell always show the same content *)
+AliasCoherent == \A i \in Regs, j \in Regs :
+    /\ SharesV(r, va, i, j) => r[i].val = r[j].val
+    /\ SharesF(r, fa, i, j) => r[i].has = r[j].has
+(* registers that own their storage share it with nobody: a call changes them only if it names them *)
+OwnersKept == [][\A k \in Regs : (r[k].kind \notin ValRef /\ r'[k] # r[k]) =>
+                    (k \in {IF "i" \in DOMAIN last'.a THEN last'.a.i ELSE 0, IF "j" \in DOMAIN last'.a THEN last'.a.j ELSE 0,
+                            IF "d" \in DOMAIN last'.a THEN last'.a.d ELSE 0})]_vars
 
 (* == is symmetric, a register equals itself, != is the negation, for every pair of registers *)
 EqualityLaws == \A i \in Regs, j \in Regs :
@@ -422,7 +554,7 @@ Propagation == [][last'.op \in LiftedCalls => (last'.res.has = \A i \in Operands
 (* binary and ternary operators, compound assignments and lifted functions never evaluate on a missing operand *)
 NeverEvaluated == [][(/\ last'.op \in LiftedCalls
                       /\ ~(last'.op = "Unary" /\ last'.a.f \in UnOps)
-                      /\ \E i \in Operands(last') : ~r[i].has) => evals' = evals]_vars
+                      /\ \E i \in Operands(last') : ~r[i].has \/ IsNA(r[i].val)) => evals' = evals]_vars
 (* a missing divisor (even zero) leaves the target of /= and %= untouched *)
 DivTargetKept == [][(last'.op = "Compound" /\ last'.a.f \in {"div_eq", "mod_eq"} /\ ~last'.res.has)
                        => r'[last'.a.i].val = r[last'.a.i].val]_vars
